@@ -17,7 +17,8 @@ Proof.
   apply N.eqb_eq in E. split; [exact E|].
   destruct (msg_read c (f_v2 f0) p) as [v| |]; try discriminate.
   exists v. split; [reflexivity|].
-  destruct (f_v2 f0 && has_empty_bytes p); inversion H; reflexivity.
+  destruct (msg_write c (f_v2 f0) v) as [p'| |]; try discriminate.
+  destruct (bytes_eqb p' p); inversion H; reflexivity.
 Qed.
 
 Lemma gate_reject d f0 id p c :
@@ -29,15 +30,16 @@ Proof.
   destruct (gen_checksum f0 id p (c_crc c) =? f_ck f0) eqn:E; [apply N.eqb_eq in E; contradiction|reflexivity].
 Qed.
 
-Lemma gate_complete d f0 id p c v :
+Lemma gate_complete d f0 id p c v p' :
   raw_of f0 = (id, p) -> dlookup d id = Some c ->
   gen_checksum f0 id p (c_crc c) = f_ck f0 -> msg_read c (f_v2 f0) p = Ok v ->
+  msg_write c (f_v2 f0) v = Ok p' ->
   exists f, check_dialect d f0 = RFrame f /\ f_msg f = MDec id v /\
             f_seq f = f_seq f0 /\ f_sys f = f_sys f0 /\ f_comp f = f_comp f0.
 Proof.
-  unfold check_dialect. intros R L E M. rewrite R, L, M.
+  unfold check_dialect. intros R L E M Wr. rewrite R, L, M, Wr.
   apply N.eqb_eq in E. rewrite E. cbn [negb].
-  destruct (f_v2 f0 && has_empty_bytes p); eexists; (split; [reflexivity|cbn; auto]).
+  destruct (bytes_eqb p' p); eexists; (split; [reflexivity|cbn; auto]).
 Qed.
 
 Lemma gate_passthrough d f0 id p :
